@@ -91,6 +91,25 @@ CLAIMED = {
         "functions, bounded-exhaustively on small shapes and randomly up to 3x3 with overrides and exclusions.",
    note=BASE + "The implementation's column-wise recursion / numba code is not modelled line by line: the model is an independent enumerator proved against ValidM. F8 (validate false accept with overrides) and F9 (over-count with overrides) fixed by 0ce93b8, d344083.",
    technique="Coq theorems about an extracted Gallina model + differential correspondence with the implementation", design="§6 C09"),
+ 'C05': dict(
+   text="Theorems (histories of any length): for any correction search that answers inside the mask and is a consistent choice "
+        "function, the retry loop over the analyzer's feasibility mask returns the row a processor with perfect knowledge would "
+        "pick, keeps the invariant 'the mask only lacks infeasible rows', hence a decode after any sequence of decodes / fix / "
+        "free equals the decode of a fresh processor with the same fixed mask; with copy-on-return every decode hands out a "
+        "pristine instance whatever was stored on earlier ones; both are refuted (vm_compute witnesses) for the code as found "
+        "(in-place and; cached object returned). Random operation histories on one long-lived processor are compared step by "
+        "step with freshly built processors.",
+   note=BASE + "The oracle of the history runs is the implementation itself (metamorphic); the choice-function hypothesis on the implementation's correction search is assumed, not proved; other-process/hash-seed runs belong to C18. F2, F3 fixed by b7e31b6, e876f05.",
+   technique="Coq theorems about an extracted Gallina model + differential correspondence with the implementation", design="§6 C05"),
+ 'C15': dict(
+   text="Theorems: restrict_rows yields only original rows (column removed) with the fixed value there (or inactive, for a "
+        "design-variable-node variable), keeps every row active with that value, drops every row active with another value, "
+        "counts accordingly; decodes under a fixed mask return rows the mask allows; after any fix/free/decode history a decode "
+        "equals that of a fresh processor with the same fixed mask (free restores); refuted for the in-place mask of the code as "
+        "found. get_all_discrete_x under fixed values is compared with the extracted restrict_rows applied to the unfixed "
+        "enumeration; counts, des_vars, decodes with a fresh processor; out-of-range values must be rejected.",
+   note=BASE + "An empty restricted space may fail explicitly (RuntimeError). F2 fixed by b7e31b6.",
+   technique="Coq theorems about an extracted Gallina model + differential correspondence with the implementation", design="§6 C15"),
 }
 NA_REASON = "machinery under construction in this round; not yet claimed"
 
